@@ -187,43 +187,52 @@ def mapChars (m : List (Nat × Nat)) (perm : Nat) (compact : Bool) : List Ch :=
   m.flatMap fun (mask, c) =>
     if perm &&& mask ≠ 0 then [c] else if compact then [] else [45]
 
+/-- The word the tag `switch` of `append_entry` copies (nothing for a tag without `case`). -/
+def tagWord (nfs4 : Bool) (tag : Nat) : List Ch :=
+  if tag = tagUserObj then (if nfs4 then str "owner@" else str "user")
+  else if tag = tagUser then str "user"
+  else if tag = tagGroupObj then (if nfs4 then str "group@" else str "group")
+  else if tag = tagGroup then str "group"
+  else if tag = tagMask then str "mask"
+  else if tag = tagOther then str "other"
+  else if tag = tagEveryone then str "everyone@"
+  else []
+
+/-- The tags whose `case` does `name = NULL; id = -1`. -/
+def dropsQual (tag : Nat) : Bool :=
+  tag = tagUserObj ∨ tag = tagGroupObj ∨ tag = tagMask ∨ tag = tagOther ∨ tag = tagEveryone
+
+/-- What `append_entry` writes between the colon after the tag and the
+permissions (qualifier and second colon), and the id left for the trailing field. -/
+def qualPart (type tag flags : Nat) (name : List Ch) (id : Int) : List Ch × Int :=
+  let name := if dropsQual tag then [] else name
+  let id := if dropsQual tag then -1 else id
+  let ug := tag = tagUser ∨ tag = tagGroup
+  if type &&& typePosix1e ≠ 0 ∨ ug then
+    let colon : List Ch :=
+      if ¬ hasFlag flags styleSolaris ∨ (tag ≠ tagOther ∧ tag ≠ tagMask) then [58] else []
+    if name ≠ [] then (name ++ colon, id)
+    else if ug then (appendId id ++ colon, if type &&& typeNfs4 = 0 then -1 else id)
+    else (colon, id)
+  else ([], id)
+
+/-- The permission part: `rwx` for POSIX.1e, `perms:flags:type` for NFSv4. -/
+def permPart (wide : Bool) (type flags perm : Nat) : List Ch :=
+  if type &&& typePosix1e ≠ 0 then
+    [if perm &&& 0o444 ≠ 0 then 114 else 45, if perm &&& 0o222 ≠ 0 then 119 else 45,
+     if perm &&& 0o111 ≠ 0 then 120 else 45]
+  else
+    mapChars (if wide then permMapW else permMap) perm (hasFlag flags styleCompact) ++ [58] ++
+    mapChars (if wide then flagMapW else flagMap) perm (hasFlag flags styleCompact) ++ [58] ++
+    (if type = typeAllow then str "allow" else if type = typeDeny then str "deny"
+     else if type = typeAudit then str "audit" else if type = typeAlarm then str "alarm" else [])
+
 /-- `append_entry` / `append_entry_w`.  `name = []` is a NULL name. -/
 def appendEntry (wide : Bool) (pfx : Bool) (type tag flags : Nat) (name : List Ch)
     (perm : Nat) (id : Int) : List Ch :=
-  let nfs4 := type &&& typeNfs4 ≠ 0
-  let posix := type &&& typePosix1e ≠ 0
-  -- the tag switch: word, and whether name/id survive
-  let (word, name, id) :=
-    if tag = tagUserObj then ((if nfs4 then str "owner@" else str "user"), ([] : List Ch), (-1 : Int))
-    else if tag = tagUser then (str "user", name, id)
-    else if tag = tagGroupObj then ((if nfs4 then str "group@" else str "group"), [], -1)
-    else if tag = tagGroup then (str "group", name, id)
-    else if tag = tagMask then (str "mask", [], -1)
-    else if tag = tagOther then (str "other", [], -1)
-    else if tag = tagEveryone then (str "everyone@", [], -1)
-    else ([], name, id)
-  let ug := tag = tagUser ∨ tag = tagGroup
-  let (qual, id) :=
-    if posix ∨ ug then
-      let (q, id) :=
-        if name ≠ [] then (name, id)
-        else if ug then (appendId id, if ¬ nfs4 then (-1 : Int) else id)
-        else ([], id)
-      let colon : List Ch :=
-        if ¬ hasFlag flags styleSolaris ∨ (tag ≠ tagOther ∧ tag ≠ tagMask) then [58] else []
-      (q ++ colon, id)
-    else ([], id)
-  let perms : List Ch :=
-    if posix then
-      [if perm &&& 0o444 ≠ 0 then 114 else 45, if perm &&& 0o222 ≠ 0 then 119 else 45,
-       if perm &&& 0o111 ≠ 0 then 120 else 45]
-    else
-      mapChars (if wide then permMapW else permMap) perm (hasFlag flags styleCompact) ++ [58] ++
-      mapChars (if wide then flagMapW else flagMap) perm (hasFlag flags styleCompact) ++ [58] ++
-      (if type = typeAllow then str "allow" else if type = typeDeny then str "deny"
-       else if type = typeAudit then str "audit" else if type = typeAlarm then str "alarm" else [])
-  (if pfx then str "default:" else []) ++ word ++ [58] ++ qual ++ perms ++
-    (if id ≠ -1 then 58 :: appendId id else [])
+  let q := qualPart type tag flags name id
+  (if pfx then str "default:" else []) ++ tagWord (type &&& typeNfs4 ≠ 0) tag ++ [58] ++ q.1 ++
+    permPart wide type flags perm ++ (if q.2 ≠ -1 then 58 :: appendId q.2 else [])
 
 inductive TextResult
   | null                    -- the function returns NULL
